@@ -295,9 +295,9 @@ _POLYS = [   # planar lattice polygons (counter-clockwise)
 POLYGONS = [(p, shoelace(p)) for p in _POLYS]
 
 
-def shell_mesh(rng, kinds, opts):
+def shell_mesh(rng, kinds, opts, dims=None):
     """kinds subset of tri, quad, polygon; cells in the z = 0 lattice plane"""
-    nx, ny = rng.randint(1, 3), rng.randint(1, 3)
+    nx, ny = dims or (rng.randint(1, 3), rng.randint(1, 3))
     scale = 3 if opts.get('jitter') else 1
     pts, index, elems = [], {}, []
 
